@@ -352,6 +352,7 @@ emit("life-err", ok, e)
 
 func (e *Engine) Run(t *core.Tape, cfg *core.Config, st *core.Stats) *core.Violation {
 	sc := &sched{chans: map[uintptr]*mchan{}, st: st, hash: core.NewHash()}
+	multiBefore := st.Probes["select_multi_ready"]
 	var desc []string
 	addChan := func(capacity int) *mchan {
 		ch := make(chan lua.LValue, capacity)
@@ -621,6 +622,13 @@ func (e *Engine) Run(t *core.Tape, cfg *core.Config, st *core.Stats) *core.Viola
 	}
 	if sharedProto != nil && deepHash(sharedProto) != protoHash {
 		return fail("prototype-modified", "the shared compiled prototype was modified by executing it")
+	}
+	if st.Probes["select_multi_ready"] != multiBefore {
+		st.Uncontrolled = true // Go's choice among several buffer-ready select cases is not controlled
+	}
+	st.D(uint64(sc.hash))
+	for _, tk := range sc.tasks {
+		st.D(core.HashStrings(tk.trace))
 	}
 	if len(sc.tasks) >= 2 {
 		st.Distinct(uint64(sc.hash))
